@@ -1,8 +1,8 @@
 package props
 
 import (
-	"sort"
 	"go/types"
+	"sort"
 	"strings"
 
 	"verif/checker/internal/an"
@@ -394,6 +394,22 @@ func c08(c *Ctx) {
 		}
 		sort.Strings(bad)
 		r.Check(len(bad) == 0 && nf > 3, "R08.E", "read-path-never-closes", c.pos(rm.Pos()), sprintf("%d functions reachable from transport.ReadMsg; %s", nf, strings.Join(bad, "; ")))
+	}
+
+	// the announcement bytes and every other package-level table of the framing code are constants in all but
+	// name: nothing in packages mode and transport writes them (a Detect that reads the peer's bytes into a slice of
+	// the announcement array changes what every later connection announces)
+	r.Rule("R08.G", "no function of packages mode and transport writes a package-level variable or reads into / appends to / copies into the storage of one", 1)
+	{
+		var entries []*ssa.Function
+		for f := range c.P.AllFunctions() {
+			pp := load.FuncPkgPath(f)
+			if (pp == load.ModePkg || pp == load.TransPkg) && f.Synthetic == "" && len(f.Blocks) > 0 && f.Parent() == nil && f.Name() != "init" {
+				entries = append(entries, f)
+			}
+		}
+		sort.Slice(entries, func(i, j int) bool { return entries[i].String() < entries[j].String() })
+		c.noGlobalWrites("R08.G", entries, "the framing path: every connection of the process shares it")
 	}
 
 	// ---- R08.O: "the same sequence of byte strings" - each delivered message keeps its bytes ------------------------
